@@ -83,7 +83,12 @@ def _pt(rng, scale=1.0):
 
 
 def _radius(rng):
-    return _r6(10 ** rng.uniform(-3, 3)) if rng.random() < 0.7 else rng.choice([1.0, 1e-3, 1e3, 0.5, 2.0])
+    k = rng.random()
+    if k < 0.7:
+        return _r6(10 ** rng.uniform(-3, 3))
+    if k < 0.8:
+        return rng.choice([1, 2, 3, 10])  # a Python int where a float is documented
+    return rng.choice([1.0, 1e-3, 1e3, 0.5, 2.0])
 
 
 def _center(rng, r):
@@ -133,7 +138,7 @@ def cases(seed, tier):
 
     def add(gen, p, **extra):
         d = {"gen": gen, "p": p, "style": STYLES[len(out) % 4] if rng.random() < 0.6 else rng.choice(STYLES),
-             "seed": rng.randrange(2 ** 31)}
+             "num": "np" if rng.random() < 0.2 else "py", "seed": rng.randrange(2 ** 31)}
         d.update(extra)
         out.append(d)
 
@@ -178,10 +183,10 @@ def cases(seed, tier):
     for i in range(40 * rep):
         n = [4, 5, 6, 7, 8][i % 5] if i < 10 else rng.randint(4, 60 if quick else 400)
         add("sphere_fibonacci", {"n_pts": n, "radius": _radius(rng), "build_surface": i % 6 != 5})
-    for (a, b) in _pairs(rng, 2, 3, hi, 90 if quick else 1200, exhaustive_to=5 if quick else 12):
+    for (a, b) in _pairs(rng, 2, 3, hi, 90 if quick else 1200, exhaustive_to=5 if quick else 40):
         r = _radius(rng)
         add("sphere_uv", {"n_lat": a, "n_long": b, "center": _center(rng, r), "radius": r})
-    for (a, b) in _pairs(rng, 3, 3, hi, 50 if quick else 1200, exhaustive_to=4 if quick else 12):
+    for (a, b) in _pairs(rng, 3, 3, hi, 50 if quick else 1200, exhaustive_to=4 if quick else 40):
         for tri in (False, True):
             R_ = _radius(rng)
             add("torus", {"major_segments": a, "minor_segments": b, "major_radius": R_,
@@ -222,10 +227,10 @@ def cases(seed, tier):
     for i in range(24 * rep):
         s = _radius(rng)
         add("quad", {**{"P%d" % j: q for j, q in enumerate(_nondegenerate_pts(rng, 3, s))}, "triangulate": i % 2 == 1})
-    for (a, b) in _pairs(rng, 2, 2, hi, 45 if quick else 1000, exhaustive_to=4 if quick else 14):
+    for (a, b) in _pairs(rng, 2, 2, hi, 45 if quick else 1000, exhaustive_to=4 if quick else 40):
         for tri, uv in _bools(2):
             add("unit_grid", {"nu": a, "nv": b, "triangulate": tri, "generate_uvs": uv})
-    for (a, b) in _pairs(rng, 2, 2, hi, 50 if quick else 1000, exhaustive_to=4 if quick else 14):
+    for (a, b) in _pairs(rng, 2, 2, hi, 50 if quick else 1000, exhaustive_to=4 if quick else 40):
         for uv in (False, True):
             add("unit_triangle", {"nu": a, "nv": b, "generate_uvs": uv})
     # ---- polylines ---------------------------------------------------------------------
@@ -346,7 +351,14 @@ def _materialise(gen, p, desc):
         aux["z"] = z
         return {"mesh": build.surface(z["V"], z["F"]), "mode": p["mode"]}, aux
     for k, v in p.items():
-        args[k] = M.Vec(*v) if k in POINT_PARAMS else v
+        if k in POINT_PARAMS:
+            args[k] = M.Vec(*v)
+        elif desc.get("num") == "np" and isinstance(v, int) and not isinstance(v, bool):
+            args[k] = np.int64(v)
+        elif desc.get("num") == "np" and isinstance(v, float):
+            args[k] = np.float64(v)
+        else:
+            args[k] = v
     return args, aux
 
 
@@ -400,6 +412,7 @@ def run_case(desc, ctx):
     pos, kw = _split(gen, args, style, desc["seed"])
     ctx.cls("gen:" + gen)
     ctx.cls("style:" + style)
+    ctx.cls("numbers:" + ("numpy scalars" if desc.get("num") == "np" else "python"))
     if tag:
         ctx.cls("class:" + gen + tag)
     if gen in TWO_RES:
